@@ -70,9 +70,34 @@ def do_run(ids, extra_props=()):
     return res
 
 
+def run_scratch(sid, props=None):
+    """apply the stored patch to a scratch worktree (not /repo) and run the check(s) against it; parallel-safe."""
+    d = os.path.join(V, 'seeded', sid)
+    wt = '/tmp/mutrun_%s_%d' % (sid, os.getpid())
+    sh(['git', '-C', '/repo', 'worktree', 'add', '--detach', wt, 'HEAD'])
+    res = {}
+    try:
+        rc, out = sh(['git', '-C', wt, 'apply', os.path.join(d, 'patch.diff')]); assert rc == 0, out
+        for p in (props or [sid.split('-')[0]]):
+            t = time.time()
+            rc, out = sh('VERIF_REPO_ROOT=%s VERIF_EVIDENCE_DIR=%s/out/evidence_seeded/%s %s/check %s'
+                         % (wt, V, sid, V, p), cwd=V, timeout=1800)
+            lines = [l for l in out.splitlines() if l.startswith(('VIOLATION', 'UNDECIDED', 'CHECKER-LIMIT', 'PROOF'))]
+            res[(sid, p)] = (rc, lines)
+            print(sid, p, 'exit', rc, '%.0fs' % (time.time() - t), flush=True)
+            for l in lines[:4]:
+                print('    ', l[:220], flush=True)
+    finally:
+        sh(['git', '-C', '/repo', 'worktree', 'remove', '--force', wt])
+    return res
+
+
 if __name__ == '__main__':
     if sys.argv[1] == 'import':
         do_import(sys.argv[2], sys.argv[3])
+    elif sys.argv[1] == 'scratch':
+        for sid in sys.argv[2:]:
+            run_scratch(sid)
     elif sys.argv[1] == 'run':
         ids = sys.argv[2:] or sorted(os.listdir(os.path.join(V, 'seeded')))
         do_run(ids)
